@@ -41,6 +41,7 @@ const char * tname()
     else if constexpr (std::is_same_v<T, long>) return "long";
     else if constexpr (std::is_same_v<T, uint8_t>) return "uint8";
     else if constexpr (std::is_same_v<T, uint16_t>) return "uint16";
+    else if constexpr (std::is_same_v<T, short>) return "short";
     else return typeid(T).name();
 }
 
